@@ -270,6 +270,12 @@ class Engine:
                 st.assume(nq == q)
                 named.append(nq)
         hf.parts = [z3.Store(p, obj.z, q) for p, q in zip(hf.parts, named)]
+        if isinstance(val, VList) and val.mem is not None and len(named) == 2:
+            # a list whose member set is known (comprehension / concatenation result): reading the field back yields the same (length, array)
+            # terms, so remember the member set for them instead of re-deriving it through index skolems (keeps set-level obligations in the array fragment)
+            cache = dict(st.ghost.get("memcache", {}))
+            cache[("mem", named[1].get_id(), named[0].get_id())] = val.mem
+            st.ghost["memcache"] = cache
 
     def is_subclass(self, c: str, base: str) -> bool:
         if c == base:
